@@ -322,6 +322,24 @@ pub fn run(run: &mut Run) {
     }
     let n3 = configs.len() - n1 - n2;
     let (ex, pts, capped, maxo) = run_configs(run, "C02", &setup, &configs, &extra);
+    // (e) the same pairs on a key that a completed snapshot has persisted (its record, state and tombstone
+    // handling differ from a key that only lives in memory), incl. a stale versioned write racing a remove
+    let (ex, pts, capped) = {
+        let setup_p = Setup { strategy: "none", init: vec!["set k 1".into(), "set k 1".into(), "snapshot false t".into(), RUN_SNAPSHOT.into()], session_init: (0..2).map(|_| vec!["use-db t tok".to_string()]).collect(), check_replica: false };
+        let bp = base_version(&setup_p);
+        let left = vec!["remove k".to_string(), "set k 10".to_string(), "increment k".to_string(), format!("set-safe k {} s0", bp)];
+        let right = vec![format!("set-safe k {} stale", bp - 1), format!("set-safe k {} s1", bp), "remove k".to_string(), "increment k".to_string(), "set k 11".to_string()];
+        let mut cs: Vec<Config> = vec![];
+        for a in left.iter() {
+            for b in right.iter() {
+                cs.push(Config { linearizable: true, programs: vec![vec![a.clone()], vec![b.clone()]], bound: if quick { 2 } else { 99 }, max_exec: 200_000, budget: Duration::from_secs(if quick { 8 } else { 120 }) });
+            }
+        }
+        let extra_p = c02_extra(bp);
+        let (e, p, c, _m) = run_configs(run, "C02", &setup_p, &cs, &extra_p);
+        run.cov("ilv_2x1_on_a_persisted_key", json!({"configs": cs.len(), "preemption_bound": if quick { 2 } else { 99 }}));
+        (ex + e, pts + p, capped + c)
+    };
     // (d) the snapshot (carried out by the declutter timer's thread) racing one client: an acknowledged write
     // must not be lost to what the snapshot captured before it. File writes are scheduling points here.
     let (ex, pts, capped) = {
